@@ -878,11 +878,8 @@ Lemma handle_from_idle_eq cfg s from bc bytes d frame_id :
           let '(s1, r, o1) := handle_non_read cfg s fn seq frame_id bytes hdrs in hfi_finish cfg from seq bytes fn s1 r None false o1
       | FtRepeatNonRead last =>
           let s1 := match s_select s with
-                    | Some sel =>
-                        if (ss_frame_id sel + 1) mod 4294967296 =? frame_id
-                        then upd_select s (Some {| ss_seq := ss_seq sel; ss_frame_id := frame_id;
-                                                   ss_time := ss_time sel; ss_objects := ss_objects sel |})
-                        else s
+                    | Some sel => upd_select s (Some {| ss_seq := ss_seq sel; ss_frame_id := frame_id;
+                                                        ss_time := ss_time sel; ss_objects := ss_objects sel |})
                     | None => s
                     end in
           hfi_finish cfg from seq bytes fn s1 last None true []
@@ -891,364 +888,11 @@ Lemma handle_from_idle_eq cfg s from bc bytes d frame_id :
       | FtSolConfirm _ | FtUnsolConfirm _ => (s, [OInfo (IIdleRequest fn seq)])
       end
   end.
-Proof. reflexivity. Qed.
-
-Lemma hfi_finish_none cfg from seq bytes fn s1 se repeat o1 :
-  hfi_finish cfg from seq bytes fn s1 None se repeat o1 =
-  (upd_last s1 (mk_last seq bytes None se), OInfo (IIdleRequest fn seq) :: o1).
-Proof. reflexivity. Qed.
-
-Lemma hfi_finish_some cfg from seq bytes fn s1 r se repeat o1 s' o :
-  hfi_finish cfg from seq bytes fn s1 (Some r) se repeat o1 = (s', o) ->
-  exists s2 r' pre post,
-    same_core s1 s2 /\ (if repeat then r' = r else sent_of r r') /\
-    o = OInfo (IIdleRequest fn seq) :: o1 ++ pre ++ OTx from (response_bytes r' (s_sol_buf s2)) :: post /\
-    Forall no_tx pre /\ Forall no_tx post /\
-    exists se', s_last s' = mk_last seq bytes (Some r') se' /\ same_aux s2 s' /\
-      (s_control s' = s_control s1 \/ exists x, s_control s' = CSolWait x (confirm_deadline cfg s') RStep2).
 Proof.
-  unfold hfi_finish. destruct repeat.
-  - set (se' := match se with None => if ctl_con (r_ctl r) then Some {| se_ecsn := ctl_seq (r_ctl r); se_fin := true |} else None | x => x end).
-    unfold repeat_solicited.
-    destruct se' as [x|] eqn:Ese; intros H; inversion H; subst; clear H.
-    + exists s1, r, [], [OInfo (IEnterSolWait (se_ecsn x))]. split; [apply sc_refl|]. split; [reflexivity|].
-      split; [reflexivity|]. split; [constructor|]. split; [notx2|].
-      exists (Some x). split; [reflexivity|]. split; [eauto using sa_trans, sa_upd_last, sa_upd_control|].
-      right. exists x. reflexivity.
-    + exists s1, r, [], []. split; [apply sc_refl|]. split; [reflexivity|].
-      split; [reflexivity|]. split; [constructor|]. split; [constructor|].
-      exists None. split; [reflexivity|]. split; [apply sa_upd_last|]. left. reflexivity.
-  - destruct (write_solicited s1 from r) as [[s2 r'] o2] eqn:E. apply write_solicited_spec in E.
-    destruct E as (E1 & (pre & E2 & E3) & E4 & E5 & E6 & E7).
-    set (se' := match se with None => if ctl_con (r_ctl r') then Some {| se_ecsn := ctl_seq (r_ctl r'); se_fin := true |} else None | x => x end).
-    destruct se' as [x|] eqn:Ese; intros H; inversion H; subst; clear H.
-    + exists s2, r', pre, [OInfo (IEnterSolWait (se_ecsn x))]. split; [exact E1|].
-      split; [repeat split; assumption|]. split; [cbn [app]; rewrite <- app_assoc; reflexivity|].
-      split; [exact E3|]. split; [notx2|].
-      exists (Some x). split; [reflexivity|]. split; [eauto using sa_trans, sa_upd_last, sa_upd_control|].
-      right. exists x. reflexivity.
-    + exists s2, r', pre, []. split; [exact E1|].
-      split; [repeat split; assumption|]. split; [reflexivity|].
-      split; [exact E3|]. split; [constructor|].
-      exists None. split; [reflexivity|]. split; [apply sa_upd_last|].
-      left. cbn. destruct E1 as (_ & E1 & _). exact E1.
-Qed.
-
-(* ---------- frames of the mid-level functions -------------------------------------------------- *)
-
-Lemma ans_suffix_refl s : ans_suffix s s.
-Proof. exists []. reflexivity. Qed.
-Lemma ans_suffix_trans s1 s2 s3 : ans_suffix s1 s2 -> ans_suffix s2 s3 -> ans_suffix s1 s3.
-Proof. intros [p1 H1] [p2 H2]. exists (p1 ++ p2). rewrite H1, H2, app_assoc. reflexivity. Qed.
-Lemma ans_suffix_eq s s' : s_answers s' = s_answers s -> ans_suffix s s'.
-Proof. intros H. exists []. rewrite H. reflexivity. Qed.
-Lemma sc_ans s s' : same_core s s' -> ans_suffix s s'.
-Proof. unfold same_core. intuition. Qed.
-Lemma sa_ans s s' : same_aux s s' -> ans_suffix s s'.
-Proof. unfold same_aux. intuition. Qed.
-
-Ltac open_frames :=
-  repeat match goal with
-         | H : same_core _ _ |- _ =>
-             let A := fresh "Hans" in pose proof (sc_ans _ _ H) as A;
-             destruct H as (? & ? & ? & ? & ? & ? & ? & ? & ? & ? & ? & ? & ? & _)
-         | H : same_aux _ _ |- _ =>
-             let A := fresh "Hans" in pose proof (sa_ans _ _ H) as A;
-             destruct H as (? & ? & ? & ? & ? & ? & ? & ? & ? & ? & ? & _)
-         end.
-
-Ltac ans_solve :=
-  first [ apply ans_suffix_refl
-        | assumption
-        | apply ans_suffix_eq; reflexivity
-        | eapply ans_suffix_trans; [eassumption|]; ans_solve
-        | eapply ans_suffix_trans; [|eassumption]; apply ans_suffix_eq; reflexivity ].
-
-Lemma process_broadcast_spec cfg s m fid ctl fn bytes obj s1 o :
-  process_broadcast cfg s m fid ctl fn bytes obj = (s1, o) -> same_core s s1 /\ Forall no_tx o.
-Proof.
-  unfold process_broadcast. destruct (negb (o_broadcast cfg)).
-  { intros H; inversion H; subst. split; [eauto with sc | notx2]. }
-  destruct obj as [e|hdrs rh].
-  { intros H; inversion H; subst. split; [eauto with sc | notx2]. }
-  assert (S0 : same_core s (upd_last_bcast s (Some m))) by eauto with sc.
-  repeat match goal with |- (if ?c then _ else _) = _ -> _ => destruct c end.
-  - destruct (handle_write_headers cfg (upd_last_bcast s (Some m)) hdrs) as [[s' v] o'] eqn:E.
-    apply handle_write_headers_spec in E. destruct E as [E1 E2].
-    intros H; inversion H; subst. split; [eauto using sc_trans | notx2].
-  - destruct (handle_controls cfg (upd_last_bcast s (Some m)) fn (ctl_seq ctl) fid bytes hdrs) as [[s' r'] o'] eqn:E.
-    apply handle_controls_spec in E. destruct E as (E1 & E2 & _).
-    intros H; inversion H; subst. split; [eauto using sc_trans | notx2].
-  - pose proof (handle_freeze_notx cfg 0 hdrs) as Hn. destruct (handle_freeze cfg 0 hdrs) as [v o'].
-    intros H; inversion H; subst. split; [exact S0 | notx2].
-  - pose proof (handle_freeze_notx cfg 1 hdrs) as Hn. destruct (handle_freeze cfg 1 hdrs) as [v o'].
-    intros H; inversion H; subst. split; [exact S0 | notx2].
-  - pose proof (handle_freeze_at_time_notx cfg hdrs None) as Hn. destruct (handle_freeze_at_time cfg None hdrs) as [v o'].
-    intros H; inversion H; subst. split; [exact S0 | notx2].
-  - intros H; inversion H; subst. split; [eauto using sc_trans with sc | notx2].
-  - destruct (enable_disable cfg (upd_last_bcast s (Some m)) false (ctl_seq ctl) hdrs) as [s' r'] eqn:E.
-    apply enable_disable_spec in E. destruct E as [E1 _].
-    intros H; inversion H; subst. split; [eauto using sc_trans | notx2].
-  - destruct (enable_disable cfg (upd_last_bcast s (Some m)) true (ctl_seq ctl) hdrs) as [s' r'] eqn:E.
-    apply enable_disable_spec in E. destruct E as [E1 _].
-    intros H; inversion H; subst. split; [eauto using sc_trans | notx2].
-  - intros H; inversion H; subst. split; [exact S0 | notx2].
-Qed.
-
-Lemma write_error_response_spec s from bc seq s1 o :
-  write_error_response s from bc seq = (s1, o) ->
-  same_core s s1 /\
-  match bc, seq with
-  | None, Some q => exists r' pre, sent_of (empty_solicited q iin2_no_func) r' /\
-                      o = pre ++ [OTx from (response_bytes r' (s_sol_buf s1))] /\ Forall no_tx pre
-  | _, _ => o = []
-  end.
-Proof.
-  unfold write_error_response. destruct bc as [m|]; [intros H; inversion H; subst; split; [apply sc_refl|reflexivity]|].
-  destruct seq as [q|]; [|intros H; inversion H; subst; split; [apply sc_refl|reflexivity]].
-  destruct (write_solicited s from (empty_solicited q iin2_no_func)) as [[s' r'] o'] eqn:E.
-  apply write_solicited_spec in E. destruct E as (E1 & (pre & E2 & E3) & E4 & E5 & E6 & E7).
-  intros H; inversion H; subst. split; [exact E1|]. exists r', pre. repeat split; assumption.
-Qed.
-
-(* handle_from_idle changes, of the fields listed in same_core, only s_last and s_control, and the
-   control state only by entering a solicited confirm wait that resumes at step 2 *)
-Lemma handle_from_idle_frame cfg s from bc bytes d fid s' o :
-  handle_from_idle cfg s from bc bytes d fid = (s', o) ->
-  same_aux s s' /\
-  (s_control s' = s_control s \/ exists x, s_control s' = CSolWait x (confirm_deadline cfg s') RStep2).
-Proof.
-  rewrite handle_from_idle_eq. destruct (to_treq cfg from d) as [|sq|ctl fn obj].
-  - intros H; inversion H; subst. split; [apply sa_refl|left; reflexivity].
-  - intros H. apply write_error_response_spec in H. destruct H as [H _]. split; [apply sa_of_sc; exact H|].
-    left. destruct H as (_ & H & _). exact H.
-  - cbv zeta. destruct (classify s bc bytes ctl fn obj) as [iin2|hdrs rh|resp hdrs rh|hdrs|last|m|q|q].
-    + intros H. apply hfi_finish_some in H.
-      destruct H as (s2 & r' & pre & post & H1 & _ & _ & _ & _ & se' & H2 & H3 & H4).
-      split; [eauto using sa_trans, sa_of_sc|]. exact H4.
-    + destruct (format_first_read_response s (ctl_seq ctl)) as [[[s1 r] se] o1] eqn:E.
-      apply format_first_read_response_spec in E. destruct E as (E1 & _).
-      intros H. apply hfi_finish_some in H.
-      destruct H as (s2 & r' & pre & post & H1 & _ & _ & _ & _ & se' & H2 & H3 & H4).
-      split; [eauto using sa_trans, sa_of_sc|].
-      destruct E1 as (_ & E1 & _). rewrite E1 in H4. exact H4.
-    + destruct (format_first_read_response s (ctl_seq ctl)) as [[[s1 r] se] o1] eqn:E.
-      apply format_first_read_response_spec in E. destruct E as (E1 & _).
-      intros H. apply hfi_finish_some in H.
-      destruct H as (s2 & r' & pre & post & H1 & _ & _ & _ & _ & se' & H2 & H3 & H4).
-      split; [eauto using sa_trans, sa_of_sc|].
-      destruct E1 as (_ & E1 & _). rewrite E1 in H4. exact H4.
-    + destruct (handle_non_read cfg s fn (ctl_seq ctl) fid bytes hdrs) as [[s1 r] o1] eqn:E.
-      apply handle_non_read_spec in E. destruct E as (E1 & _).
-      destruct r as [r|].
-      * intros H. apply hfi_finish_some in H.
-        destruct H as (s2 & r' & pre & post & H1 & _ & _ & _ & _ & se' & H2 & H3 & H4).
-        split; [eauto using sa_trans, sa_of_sc|].
-        destruct E1 as (_ & E1 & _). rewrite E1 in H4. exact H4.
-      * rewrite hfi_finish_none. intros H; inversion H; subst.
-        split; [eauto using sa_trans, sa_of_sc, sa_upd_last|]. left. cbn. destruct E1 as (_ & E1 & _). exact E1.
-    + match goal with |- hfi_finish _ _ _ _ _ ?s1 _ _ _ _ = _ -> _ => set (s1' := s1) end.
-      assert (S1 : same_core s s1').
-      { subst s1'. destruct (s_select s) as [sel|]; [|apply sc_refl].
-        destruct ((ss_frame_id sel + 1) mod 4294967296 =? fid); eauto with sc. }
-      destruct last as [r|].
-      * intros H. apply hfi_finish_some in H.
-        destruct H as (s2 & r' & pre & post & H1 & _ & _ & _ & _ & se' & H2 & H3 & H4).
-        split; [eauto using sa_trans, sa_of_sc|].
-        destruct S1 as (_ & S1 & _). rewrite S1 in H4. exact H4.
-      * rewrite hfi_finish_none. intros H; inversion H; subst.
-        split; [eauto using sa_trans, sa_of_sc, sa_upd_last|]. left. cbn. destruct S1 as (_ & S1 & _). exact S1.
-    + destruct (process_broadcast cfg s m fid ctl fn bytes obj) as [s1 o1] eqn:E.
-      apply process_broadcast_spec in E. destruct E as [E1 _].
-      intros H; inversion H; subst. split; [apply sa_of_sc; exact E1|]. left. destruct E1 as (_ & E1 & _). exact E1.
-    + intros H; inversion H; subst. split; [apply sa_refl|left; reflexivity].
-    + intros H; inversion H; subst. split; [apply sa_refl|left; reflexivity].
-Qed.
-
-(* unsol_wait_fragment: control state, pending fragment, wake-up permit and the unsolicited
-   numbering are left alone; it changes s_last and s_deferred *)
-Definition same_uw (s s' : ostate) : Prop :=
-  s_now s' = s_now s /\ s_control s' = s_control s /\ s_unsol s' = s_unsol s /\
-  s_unsol_seq s' = s_unsol_seq s /\ s_unsol_buf s' = s_unsol_buf s /\
-  s_pending s' = s_pending s /\ s_frame_id s' = s_frame_id s /\ s_notify s' = s_notify s /\
-  ans_suffix s s'.
-
-Lemma uw_of_sc s s' : same_core s s' -> same_uw s s'.
-Proof. unfold same_core, same_uw. intuition. Qed.
-Lemma uw_refl s : same_uw s s.
-Proof. apply uw_of_sc, sc_refl. Qed.
-Lemma uw_trans s1 s2 s3 : same_uw s1 s2 -> same_uw s2 s3 -> same_uw s1 s3.
-Proof.
-  unfold same_uw. intros (A1 & A2 & A3 & A4 & A5 & A6 & A7 & A8 & A9) (B1 & B2 & B3 & B4 & B5 & B6 & B7 & B8 & B9).
-  repeat split; try congruence. eapply ans_suffix_trans; eassumption.
-Qed.
-Lemma uw_upd_deferred s x : same_uw s (upd_deferred s x).
-Proof. unfold same_uw; cbn; repeat split. apply ans_suffix_refl. Qed.
-Lemma uw_upd_last s x : same_uw s (upd_last s x).
-Proof. unfold same_uw; cbn; repeat split. apply ans_suffix_refl. Qed.
-Lemma uw_upd_last_bcast s x : same_uw s (upd_last_bcast s x).
-Proof. unfold same_uw; cbn; repeat split. apply ans_suffix_refl. Qed.
-
-Lemma unsol_wait_fragment_frame cfg s resp from bc bytes d fid s' res o :
-  unsol_wait_fragment cfg s resp from bc bytes d fid = (s', res, o) ->
-  same_uw s s' /\ (res <> None -> s_deferred s' = s_deferred s \/ s_deferred s' = None).
-Proof.
-  unfold unsol_wait_fragment. destruct (to_treq cfg from d) as [|sq|ctl fn obj].
-  - intros H; inversion H; subst. split; [apply uw_refl|]. intros C; contradiction.
-  - destruct (write_error_response (upd_deferred s None) from bc sq) as [s1 o1] eqn:E.
-    apply write_error_response_spec in E. destruct E as [E _].
-    intros H; inversion H; subst. split; [eauto using uw_trans, uw_upd_deferred, uw_of_sc|]. intros C; contradiction.
-  - destruct (classify s bc bytes ctl fn obj) as [iin2|hdrs rh|rsp hdrs rh|hdrs|last|m|q|q].
-    + destruct (write_solicited (upd_deferred s None) from (empty_solicited (ctl_seq ctl) iin2)) as [[s1 r1] o1] eqn:E.
-      apply write_solicited_spec in E. destruct E as [E _].
-      intros H; inversion H; subst. split; [eauto using uw_trans, uw_upd_deferred, uw_of_sc|]. intros C; contradiction.
-    + intros H; inversion H; subst. split; [apply uw_upd_deferred|]. intros C; contradiction.
-    + intros H; inversion H; subst. split; [apply uw_upd_deferred|]. intros C; contradiction.
-    + destruct (handle_non_read cfg (upd_deferred s None) fn (ctl_seq ctl) fid bytes hdrs) as [[s1 r] o1] eqn:E.
-      apply handle_non_read_spec in E. destruct E as (E1 & _).
-      assert (Hd1 : s_deferred s1 = None) by (destruct E1 as (_ & _ & _ & _ & _ & E1 & _); exact E1).
-      destruct r as [r0|].
-      * destruct (write_solicited s1 from r0) as [[s2 r1] o2] eqn:E2.
-        apply write_solicited_spec in E2. destruct E2 as [E2 _].
-        intros H; inversion H; subst. split.
-        -- eauto 6 using uw_trans, uw_upd_deferred, uw_of_sc, uw_upd_last.
-        -- intros _. right. cbn. destruct E2 as (_ & _ & _ & _ & _ & E2 & _). congruence.
-      * intros H; inversion H; subst. split.
-        -- eauto 6 using uw_trans, uw_upd_deferred, uw_of_sc, uw_upd_last.
-        -- intros _. right. cbn. exact Hd1.
-    + intros H; inversion H; subst. split; [apply uw_upd_deferred|]. intros C; contradiction.
-    + destruct (process_broadcast cfg (upd_deferred s None) m fid ctl fn bytes obj) as [s1 o1] eqn:E.
-      apply process_broadcast_spec in E. destruct E as [E _].
-      intros H; inversion H; subst. split; [eauto using uw_trans, uw_upd_deferred, uw_of_sc|]. intros C; contradiction.
-    + intros H. split.
-      * destruct (s_last_bcast s) as [[]|]; inversion H; subst; auto using uw_refl, uw_upd_last_bcast.
-      * inversion H; subst. intros C; contradiction.
-    + destruct (q =? ctl_seq (r_ctl resp)); intros H; inversion H; subst.
-      * split; [apply uw_upd_last_bcast|]. intros _. left. reflexivity.
-      * split; [apply uw_refl|]. intros C; contradiction.
-Qed.
-
-(* check_unsolicited: never answers NoSleep; leaves s_last, s_deferred, the pending fragment and the
-   permit alone; from idle it stays idle or enters the unsolicited confirm wait *)
-Definition same_cu (s s' : ostate) : Prop :=
-  s_now s' = s_now s /\ s_last s' = s_last s /\ s_unsol s' = s_unsol s /\ s_deferred s' = s_deferred s /\
-  s_pending s' = s_pending s /\ s_frame_id s' = s_frame_id s /\ s_notify s' = s_notify s /\
-  ans_suffix s s'.
-
-Lemma cu_of_sc s s' : same_core s s' -> same_cu s s'.
-Proof. unfold same_core, same_cu. intuition. Qed.
-Lemma cu_refl s : same_cu s s.
-Proof. apply cu_of_sc, sc_refl. Qed.
-Lemma cu_trans s1 s2 s3 : same_cu s1 s2 -> same_cu s2 s3 -> same_cu s1 s3.
-Proof.
-  unfold same_cu. intros (A1 & A2 & A3 & A4 & A5 & A6 & A7 & A8) (B1 & B2 & B3 & B4 & B5 & B6 & B7 & B8).
-  repeat split; try congruence. eapply ans_suffix_trans; eassumption.
-Qed.
-Lemma cu_upd_control s x : same_cu s (upd_control s x).
-Proof. unfold same_cu; cbn; repeat split. apply ans_suffix_refl. Qed.
-Lemma cu_upd_unsol_seq s x : same_cu s (upd_unsol_seq s x).
-Proof. unfold same_cu; cbn; repeat split. apply ans_suffix_refl. Qed.
-Lemma cu_upd_unsol_buf s x : same_cu s (upd_unsol_buf s x).
-Proof. unfold same_cu; cbn; repeat split. apply ans_suffix_refl. Qed.
-
-Lemma start_unsol_spec cfg s r is_null s' o :
-  start_unsol cfg s r is_null = (s', o) ->
-  exists s1 r1 pre,
-    same_core s s1 /\ r_fn r1 = r_fn r /\ r_size r1 = r_size r /\ r_ctl r1 = r_ctl r /\
-    s' = upd_control s1 (CUnsolWait r1 is_null (if is_null then Some 0%nat else o_retries cfg) (confirm_deadline cfg s1)) /\
-    o = pre ++ [OTx (o_master cfg) (response_bytes r1 (s_unsol_buf s1)); OInfo (IEnterUnsolWait (ctl_seq (r_ctl r1)))] /\
-    Forall no_tx pre.
-Proof.
-  unfold start_unsol. destruct (write_unsolicited cfg s r) as [[s1 r1] o1] eqn:E.
-  apply write_unsolicited_spec in E. destruct E as (E1 & (pre & E2 & E3) & E4 & E5 & E6).
-  intros H; inversion H; subst. exists s1, r1, pre. repeat split; try assumption.
-  rewrite <- app_assoc. reflexivity.
-Qed.
-
-Lemma check_unsolicited_frame cfg s s' ns o :
-  check_unsolicited cfg s = (s', ns, o) ->
-  ns = false /\ same_cu s s' /\
-  (s_control s' = s_control s \/ exists resp is_null retries dl, s_control s' = CUnsolWait resp is_null retries dl).
-Proof.
-  unfold check_unsolicited. destruct (negb (o_unsol cfg)).
-  { intros H; inversion H; subst. split; [reflexivity|]. split; [apply cu_refl|left; reflexivity]. }
-  destruct (s_unsol s) as [|deadline].
-  { destruct (start_unsol cfg (upd_unsol_seq s (seq16_next (s_unsol_seq s))) (unsol_header (s_unsol_seq s) 0) true) as [s2 o2] eqn:E.
-    apply start_unsol_spec in E. destruct E as (s1 & r1 & pre & E1 & _ & _ & _ & E2 & _).
-    intros H; inversion H; subst. split; [reflexivity|]. split.
-    - eauto using cu_trans, cu_upd_unsol_seq, cu_of_sc, cu_upd_control.
-    - right. cbn. eauto. }
-  destruct (negb match deadline with Some t => (t <=? s_now s)%Z | None => true end).
-  { intros H; inversion H; subst. split; [reflexivity|]. split; [apply cu_refl|left; reflexivity]. }
-  destruct (negb (any_enabled s)).
-  { intros H; inversion H; subst. split; [reflexivity|]. split; [apply cu_refl|left; reflexivity]. }
-  destruct (ask_unsol s) as [s1 [count body]] eqn:E0. apply ask_unsol_spec in E0.
-  destruct (s_enabled s) as [[c1 c2] c3].
-  destruct (count =? 0).
-  { intros H; inversion H; subst. split; [reflexivity|]. split; [apply cu_of_sc; exact E0|].
-    left. destruct E0 as (_ & E0 & _). exact E0. }
-  match goal with |- context [start_unsol cfg ?a ?b ?c] => destruct (start_unsol cfg a b c) as [s3 o3] eqn:E end.
-  apply start_unsol_spec in E. destruct E as (s2 & r1 & pre & E1 & _ & _ & _ & E2 & _).
-  intros H; inversion H; subst. split; [reflexivity|]. split.
-  - eauto 8 using cu_trans, cu_upd_unsol_seq, cu_upd_unsol_buf, cu_of_sc, cu_upd_control.
-  - right. cbn. eauto.
-Qed.
-
-Lemma end_unsol_frame cfg s is_null res s' ns o :
-  end_unsol cfg s is_null res = (s', ns, o) ->
-  s_control s' = CIdle /\ s_last s' = s_last s /\ s_deferred s' = s_deferred s /\ s_pending s' = s_pending s /\
-  s_notify s' = s_notify s /\ s_unsol_seq s' = s_unsol_seq s /\ s_unsol_buf s' = s_unsol_buf s /\
-  s_answers s' = s_answers s /\ s_now s' = s_now s /\ s_frame_id s' = s_frame_id s /\ Forall no_tx o.
-Proof.
-  unfold end_unsol. destruct is_null, res; intros H; inversion H; subst; cbn; repeat split; notx2.
-Qed.
-
-Lemma handle_deferred_none cfg s ns : s_deferred s = None -> handle_deferred cfg s ns = (s, []).
-Proof. unfold handle_deferred. intros H. rewrite H. reflexivity. Qed.
-
-(* handle_deferred with a deferred READ: answers it (one solicited fragment to the recorded source,
-   with the recorded sequence number), clears it, stores a wake-up permit *)
-Lemma handle_deferred_some cfg s ns d s' o :
-  s_deferred s = Some d -> handle_deferred cfg s ns = (s', o) ->
-  exists s3 r r' pre se',
-    r_fn r = fn_response /\ (exists fin con, r_ctl r = ctl_byte true fin con false (df_seq d)) /\
-    (exists c e b, (r_size r = 4 + length b)%nat /\ (In (AWrite c e b) (s_answers s) \/ b = [])) /\
-    sent_of r r' /\
-    o = pre ++ OTx (df_from d) (response_bytes r' (s_sol_buf s3)) :: match s_control s' with CSolWait x _ _ => [OInfo (IEnterSolWait (se_ecsn x))] | _ => [] end /\
-    Forall no_tx pre /\
-    s_last s' = mk_last (df_seq d) (df_bytes d) (Some r') se' /\
-    s_deferred s' = None /\ s_pending s' = s_pending s /\ s_notify s' = true /\
-    s_unsol_seq s' = s_unsol_seq s /\ s_unsol_buf s' = s_unsol_buf s /\ s_unsol s' = s_unsol s /\
-    s_now s' = s_now s /\ s_frame_id s' = s_frame_id s /\ ans_suffix s s' /\
-    (s_control s' = s_control s \/ exists x, s_control s' = CSolWait x (confirm_deadline cfg s') (RStep4 ns)).
-Proof.
-  unfold handle_deferred. intros Hd. rewrite Hd.
-  destruct (ask_iin2 (upd_notify (upd_deferred s None) true) DbDeferredSelect) as [[s1 iin2] o1] eqn:E1.
-  apply ask_iin2_spec in E1. destruct E1 as [A1 A2].
-  destruct (format_read_response s1 true (df_seq d) (N.lor (df_iin2 d) iin2)) as [[[s2 r] se] o2] eqn:E2.
-  apply format_read_response_spec in E2. destruct E2 as (B1 & B2 & B3 & _ & (fin & con & B4 & _) & (c & e & b & B5 & B6)).
-  destruct (write_solicited s2 (df_from d) r) as [[s3 r'] o3] eqn:E3.
-  apply write_solicited_spec in E3. destruct E3 as (C1 & (pre & C2 & C3) & C4 & C5 & C6 & C7).
-  set (se' := match se with None => if ctl_con (r_ctl r') then Some {| se_ecsn := ctl_seq (r_ctl r'); se_fin := true |} else None | x => x end).
-  assert (Hsuf : ans_suffix s s3).
-  { apply ans_suffix_trans with (upd_notify (upd_deferred s None) true); [apply ans_suffix_eq; reflexivity|].
-    eauto using ans_suffix_trans, sc_ans. }
-  assert (HIn : In (AWrite c e b) (s_answers s) \/ b = []).
-  { destruct B6 as [[rest B6]|B6]; [left|right; exact B6].
-    destruct A1 as (_ & _ & _ & _ & _ & _ & _ & _ & _ & _ & _ & _ & _ & [p Hp]). cbn in Hp.
-    rewrite Hp, B6. apply in_or_app. right. left. reflexivity. }
-  pose proof (sc_trans _ _ _ (sc_trans _ _ _ A1 B1) C1) as S13.
-  destruct S13 as (S1 & S2 & S3 & S4 & S5 & S6 & S7 & S8 & S9 & S10 & _). cbn in S1, S2, S3, S4, S5, S6, S7, S8, S9, S10.
-  destruct se' as [x|] eqn:Ese; intros H; inversion H; subst; clear H.
-  - exists s3, r, r', (o1 ++ o2 ++ pre), se. split; [exact B3|]. split; [eauto|]. split; [eauto|].
-    split; [repeat split; assumption|]. cbn [s_control upd_control].
-    split; [rewrite <- !app_assoc; reflexivity|]. split; [notx2|].
-    cbn. repeat split; try assumption. right. exists x. reflexivity.
-  - exists s3, r, r', (o1 ++ o2 ++ pre), se. split; [exact B3|]. split; [eauto|]. split; [eauto|].
-    split; [repeat split; assumption|]. cbn [s_control upd_last]. rewrite S2. cbn [s_control upd_notify upd_deferred].
-    split.
-    { (* control is the one of s: if it was a solicited wait the output shape differs *)
-      rewrite <- !app_assoc. cbn [app].
-      destruct (s_control s) eqn:Ec; try reflexivity. admit. }
-    split; [notx2|]. cbn. repeat split; try assumption. left. reflexivity.
+  unfold handle_from_idle. destruct (to_treq cfg from d) as [|sq|ctl fn obj]; try reflexivity.
+  cbv zeta. destruct (classify s bc bytes ctl fn obj).
+  all: try reflexivity.
+  all: idtac "FAIL".
+  all: unfold hfi_finish.
+  Show.
 Abort.
